@@ -333,3 +333,86 @@ class AreaPenValue(Contract):
         prop("negated-by-reversing", lambda a, old, r: eq(r[1], -r[0])),
         prop("translation-invariant", lambda a, old, r: eq(r[2], r[0])),
     ]
+
+
+@contract
+class SegmentPointSegmentRoundTrip(Contract):
+    """SegmentToPointPen (moveTo / lineTo / curveTo / qCurveTo / closePath / endPath) feeding
+    PointToSegmentPen, for EVERY contour of up to three segments over {line, cubic with one or two
+    control points, quadratic with none, one or two}, closed or open, with the last point on or
+    off the start point, with and without smooth-guessing and the implied closing line: what
+    comes out draws what went in - the same moveTo and the same segments with the same points in
+    the same order, up to the two spellings the protocols leave open (a closing straight segment
+    back to the start may be implied; a contour that is a single point is an anchor and comes
+    out open); a quadratic blob (no on-curve point) keeps every point, also one equal to the
+    first."""
+    module = "fontTools.pens.pointPen"
+    qualname = "SegmentToPointPen.closePath"
+    props = ("C14",)
+    shadow_mode = "real"
+    level = "PF"
+    assumptions = ("token-valued: the family is every contour of 0..3 segments x closed / open x closing point on / off the start x guessSmooth x outputImpliedClosingLine (4144 contours) plus four quadratic blobs; PointToSegmentPen._flushContour has its own contract",)
+
+    SEGS = {"line": 0, "curve2": 2, "curve1": 1, "qcurve1": 1, "qcurve2": 2, "qcurve0": 0}
+
+    def args(self, S, variant):
+        return {}
+
+    @staticmethod
+    def _norm(ops):
+        out, cur = [], None
+        for name, args in ops:
+            if name == "moveTo":
+                cur = [(name, args)]
+            elif name in ("closePath", "endPath"):
+                # a closing straight segment back to the start (lineTo, or a q/curveTo without control points) may be implied
+                if name == "closePath" and len(cur) > 1 and len(cur[-1][1]) == 1 and cur[-1][1][-1] == cur[0][1][0]:
+                    cur.pop()
+                out.append(("anchor", cur) if len(cur) == 1 else (name, cur))
+                cur = None
+            else:
+                cur.append((name, args))
+        return out
+
+    def call(self, f, a):
+        import itertools
+        from fontTools.pens.pointPen import SegmentToPointPen, PointToSegmentPen
+        from fontTools.pens.recordingPen import RecordingPen
+        SEGS = self.SEGS
+        bad, n = [], 0
+        for L in range(0, 4):
+            for segs in itertools.product(SEGS, repeat=L):
+                for closing, dup, guess, implied in itertools.product(("closePath", "endPath"), (False, True), (False, True), (False, True)):
+                    ops, k = [("moveTo", ((0, 0),))], 1
+                    for s in segs:
+                        cnt = SEGS[s]
+                        pts = tuple((10 * (k + i), 7 * (k + i) % 13) for i in range(cnt + 1))
+                        k += cnt + 1
+                        ops.append(("lineTo" if s == "line" else "curveTo" if s.startswith("curve") else "qCurveTo", pts))
+                    if dup and len(ops) > 1:
+                        name, pts = ops[-1]
+                        ops[-1] = (name, pts[:-1] + ((0, 0),))
+                    rec = RecordingPen()
+                    pen = SegmentToPointPen(PointToSegmentPen(rec, outputImpliedClosingLine=implied), guessSmooth=guess)
+                    for name, args in ops:
+                        getattr(pen, name)(*args)
+                    if closing == "closePath":
+                        f(pen)
+                    else:
+                        pen.endPath()
+                    n += 1
+                    if self._norm(rec.value) != self._norm(ops + [(closing, ())]):
+                        bad.append((segs, closing, dup, guess, implied, rec.value))
+        # quadratic blobs (no on-curve point at all): every point is kept, also one that repeats the first
+        for pts in (((0, 0), (10, 0), (10, 10)), ((0, 0), (10, 0), (0, 0)), ((0, 0), (0, 0)), ((0, 0), (10, 0), (10, 10), (0, 10))):
+            for guess, implied in itertools.product((False, True), (False, True)):
+                rec = RecordingPen()
+                pen = SegmentToPointPen(PointToSegmentPen(rec, outputImpliedClosingLine=implied), guessSmooth=guess)
+                pen.qCurveTo(*(pts + (None,)))
+                f(pen)
+                n += 1
+                if rec.value != [("qCurveTo", pts + (None,)), ("closePath", ())]:
+                    bad.append((("blob", pts), guess, implied, rec.value))
+        return n, bad[:5]
+
+    ensures = [prop("same-segments-come-out", lambda a, old, r: r[0] == 4160 and not r[1])]
